@@ -1,5 +1,9 @@
 pub mod c02;
+pub mod c03;
 pub mod c06;
+pub mod c11;
+pub mod c12;
+pub mod c13;
 pub mod c15;
 pub mod c16;
 pub mod c17;
@@ -12,7 +16,11 @@ pub type ReplayFn = fn(&serde_json::Value) -> Result<(), String>;
 pub fn lookup(id: &str) -> Option<(CheckFn, ReplayFn)> {
     match id {
         "C02" => Some((c02::run, c02::replay)),
+        "C03" => Some((c03::run, c03::replay)),
         "C06" => Some((c06::run, c06::replay)),
+        "C11" => Some((c11::run, c11::replay)),
+        "C12" => Some((c12::run, c12::replay)),
+        "C13" => Some((c13::run, c13::replay)),
         "C15" => Some((c15::run, c15::replay)),
         "C16" => Some((c16::run, c16::replay)),
         "C17" => Some((c17::run, c17::replay)),
